@@ -54,7 +54,9 @@ PCall(env, st, c) ==
   CASE c.op = "commit" ->
          [st |-> [st EXCEPT !.v = Append(@, c.v), !.vb = Append(@, c.vb)],
           ret |-> << Commit(env, c.v, c.vb), <<"V", Len(st.v)>> >>,
-          ops |-> << OpA("V", "pt", Commit(env, c.v, c.vb)) >>, err |-> ""]
+          \* the prover absorbs the commitment it hands out (c.Vobs when the caller supplies what was observed; that this IS Commit(v, vb)
+          \* is C13's statement and is compared through `ret`)
+          ops |-> << OpA("V", "pt", IF "Vobs" \in DOMAIN c THEN c.Vobs ELSE Commit(env, c.v, c.vb)) >>, err |-> ""]
     [] c.op = "alloc" ->
          IF st.pending = NoPending
          THEN [st |-> [st EXCEPT !.aL = Append(@, c.a), !.aR = Append(@, 0), !.aO = Append(@, 0),
